@@ -190,6 +190,28 @@ PROPS = {
                         "numbers with a standard uncertainty, and quoted numbers, are not generated for numeric columns",
                         "atom serial numbers are not stated by an mmCIF row; the specification numbers the atoms of a model from 0 in row order, as the reader does"],
     },
+    "C03": {
+        "translators": ["t2a", "t2b", "t2c"],
+        "count": {"quick": 60, "thorough": 600},
+        "rule": "structures built through the public API (1-3 models of the same shape, chains, residues with insertion codes and negative "
+                "numbers, 0-3 labelled alternate locations, hetero atoms, atoms with and without a known element, charges -9..9, symmetric "
+                "anisotropic tensors, residue and atom names with leading zeros, modifications); every number inside its column range with an "
+                "arbitrary digit tail, at the column limits, and on rounding boundaries; identifier of 1-4 characters, remarks, unit cell, a space "
+                "group whose symbol fits CRYST1, scale, origx, 0-2 NCS operators, database references with sequence differences (DBREF and the "
+                "DBREF1/2 form) on every third structure.  Only structures on which validate_pdb reports nothing are used.  Written at the three "
+                "levels, read back (loose writer: loose and strict reader; otherwise the same level).  Observed: the bytes written (compared with "
+                "the writer model), an independent fixed-column reading of the file against the structure, the outcome of the re-read (compared "
+                "with the reader model when the file has no SEQRES), acceptance, the round-trip verdict of the specification on (original, re-read) "
+                "and byte equality of a second write.  Structures numbered straight through 99999 atoms / 9999 residues at the loose level (short "
+                "ones that start just below the limits; one of 200010 atoms in the thorough tier).  non-trivial = more than one atom; distinct = distinct case line",
+        "assumptions": ["structures are in the reader's normal form (no empty container, identifiers unique among siblings, no residue mixing an unlabelled conformer with labelled ones) and models correspond",
+                        "atom ids are not stored in the PDB format and bonds are not written: not compared; anisotropic tensors are symmetric",
+                        "at the strict writer level ORIGX (identity) and SCALE (from the unit cell) are written even when absent: the re-read structure may carry them",
+                        "space groups whose Hermann-Mauguin symbol is longer than 10 characters are the C17 finding and are not generated here",
+                        "modifications sit on residues with a single conformer of the first model (a MODRES record names a residue of the file, not a conformer or a model); an atom without a known element is not renamed after its creation (its element would be read out of the new name)",
+                        "every round trip whose file carries SEQRES records (strict writer level, or a database reference) falls under the recorded SEQRES finding when it fails",
+                        "the converse clause (every structure whose values fit the documented column ranges passes validation) is decided by C18 (validate_pdb against the documented ranges)"],
+    },
     "C04": {
         "translators": ["t5", "t2a", "t2b", "t2c"],
         "count": {"quick": 80, "thorough": 800},
